@@ -9,6 +9,7 @@ import NgoVerif.Proofs.C20dom
 import NgoVerif.Proofs.C08impl
 import NgoVerif.Proofs.C08anon
 import NgoVerif.Proofs.C08anonStm
+import NgoVerif.Proofs.C08anonObj
 /-!
 # Driver ops that evaluate the *side conditions of the end-to-end theorems* on what the real passes did
 
@@ -34,6 +35,8 @@ import NgoVerif.Proofs.C08anonStm
   `(ok <condCheck> <same literals> <the other parts coincide>)`: the hypotheses of `C08_remove_weaker_copy_in_condition`
   for a weaker copy deleted inside the condition of body literal `i` (a conditional literal: `j` = -1; element `j` of a
   body aggregate otherwise).
+* `(sem_anon_obj <objective before> <objective after> <rule with body [p literal]> <rule with body [q literal]> ("v" …))` →
+  `(ok <objCheck> <same literals>)`: the hypothesis of `C08_weaker_copy_in_objective_costs`.
 * `(sem_okstm <stm>)` → `(ok <okBody>)`: the hypothesis of the `_partial` theorems about `expand_comparisons`.
 * `(sem_unused_cond <prog> "n" k)` → `(ok <every statement stmOk> <Unused n k prog>)`: the hypothesis of
   `C09_removal_sound/complete` for the program `unused` removed the rules of `n/k` from.
@@ -198,6 +201,16 @@ def handleSem : Sexp → Option Sexp
           | _, _ => .list [.atom "unsupported", .str "element index"]
         | _, _ => .list [.atom "unsupported", .str "body literal at the index"]
       | _, _, _, _, _, _, _ => .list [.atom "unsupported", .str "rules / literals"]
+  | .list [.atom "sem_anon_obj", o, u, pr, qr, .list fs] =>
+    some <| match Stm.ofSexp o, Stm.ofSexp u, Stm.ofSexp pr, Stm.ofSexp qr,
+        fs.mapM (fun x => match x with | .str v => some v | _ => none) with
+      | some (.minimize l c w p ts bb), some (.minimize _ _ w' p' ts' ab), some (.rule _ _ _ [.lit (.pos, .sym (.fn pn sargs false))]),
+        some (.rule _ _ _ [.lit (.pos, .sym (.fn qn targs false))]), some F =>
+        let A : Proofs.C08anonObj.ObjAnon :=
+          { line := l, col := c, weight := w', prio := p', terms := ts', body := ab, pn := pn, sargs := sargs, targs := targs, F := F }
+        .list [.atom "ok", ofBool (pn == qn && Proofs.C08anonObj.objCheck A),
+               ofBool (termEqb w w' && termEqb p p' && termsEqb ts ts' && Proofs.C08impl.sameLits bb (A.qLit :: ab))]
+      | _, _, _, _, _ => .list [.atom "unsupported", .str "objectives / literals"]
   | _ => none
 
 end NgoVerif
